@@ -1495,6 +1495,9 @@ func (req *Request) ContinueReadBody(r *bufio.Reader, maxBodySize int, preParseM
 		if !req.Header.ignoreBody() {
 			req.Header.SetContentLength(0)
 		}
+		// The request has no body: don't leave the body of a message this
+		// object read earlier in place.
+		req.ResetBody()
 		return nil
 	}
 
@@ -1578,6 +1581,9 @@ func (req *Request) ContinueReadBodyStream(r *bufio.Reader, maxBodySize int, pre
 		if !req.Header.ignoreBody() {
 			req.Header.SetContentLength(0)
 		}
+		// The request has no body: don't leave the body of a message this
+		// object read earlier in place.
+		req.ResetBody()
 		return nil
 	}
 
